@@ -66,7 +66,15 @@ c01 = [
    feed(A, 1, 10, 19, [m("ins", 12), m("del", 12), m("ins", 11), m("del", 11), m("ins", 12, "p1"), m("createp", 11, "p1"), m("tick", 13)]), run(A),
    feed(A, 2, 19, 25, []), run(A), feed(A, 3, 25, 30, [m("other", 26), m("createc", 26)]), run(A)]},
 ]
-c02 = [dict(p, plan=p["plan"]) for p in c01 if p["plan"] in ("d-late", "d-equal-ts")]
+# a partition the downstream does not know (and that is not dropped upstream): the pack cannot be re-addressed - an error
+# is raised and nothing of it is emitted, whatever the message kind (insert / delete / mixed with good messages)
+cat_nt = [coll("c1", 101, ["sa_101v0"], ["ta_901v0"], 901, parts={"_default": [1011, 9011], "px": [1015, 9015]}, notgt=["px"])]
+for kind in ("ins", "del"):
+    c01.append({"plan": "d-notgt-" + kind, "params": {"tt": 1, "catalog": cat_nt}, "steps": [{"op": "start", "c": "c1"},
+        feed(A, 1, 10, 19, [m("ins", 11)]), run(A), feed(A, 2, 19, 25, [m(kind, 21, "px")]), run(A)]})
+    c01.append({"plan": "d-notgt-mixed-" + kind, "params": {"tt": 1, "catalog": cat_nt}, "steps": [{"op": "start", "c": "c1"},
+        feed(A, 1, 10, 19, [m("del", 11), m(kind, 12, "px"), m("ins", 13)]), run(A)]})
+c02 = [dict(p, plan=p["plan"]) for p in c01 if p["plan"] in ("d-late", "d-equal-ts") or p["plan"].startswith("d-notgt")]
 
 for name, ps in (("C01", c01), ("C02", c02), ("C03", c03)):
     with open(os.path.join(os.path.dirname(os.path.abspath(__file__)), name + ".jsonl"), "w") as f:
